@@ -189,4 +189,82 @@ theorem C18_union_partial (ctx : List Shard) (shards : List RShard) (q : Q)
   | and cs => exact doSelectRepoSet_union_partial ctx shards cs hwf hH rs hrs d hl
   | _ => exact single _ (by intro cs h; cases h) hwf hH
 
+/-- **C18, listing**: the aggregation of the per-shard entry lists (`shardedSearcher.List`, in any arrival order
+    `perShard`) returns each repository name once, exactly the names some shard listed, each with its statistics
+    summed over all its entries -/
+theorem list_once_summed (perShard : List (List (Str × Stats))) :
+    ((aggregate perShard).map (·.1)).Nodup ∧
+    (∀ n, n ∈ (aggregate perShard).map (·.1) ↔ n ∈ perShard.flatten.map (·.1)) ∧
+    ∀ o ∈ aggregate perShard, o.2 = sumFor o.1 perShard.flatten := by
+  have inv : AggInv (aggregate perShard) perShard.flatten := by
+    have := aggInv_fold perShard.flatten [] [] ⟨by simp, by simp [lookup]⟩
+    simpa [aggregate] using this
+  obtain ⟨h1, h2⟩ := inv
+  refine ⟨h1, ?_, ?_⟩
+  · intro n
+    rw [← lookup_isSome_iff, h2 n]
+    by_cases h : n ∈ perShard.flatten.map (·.1)
+    · rw [if_pos h]; exact ⟨fun _ => h, fun _ => rfl⟩
+    · rw [if_neg h]
+      constructor
+      · intro hh
+        exact absurd hh (by decide)
+      · intro hh
+        exact absurd hh h
+  · intro o ho
+    have hl := lookup_of_mem _ h1 o ho
+    rw [h2 o.1] at hl
+    have hm : o.1 ∈ perShard.flatten.map (·.1) := by
+      apply Classical.byContradiction
+      intro hn
+      rw [if_neg hn] at hl
+      cases hl
+    rw [if_pos hm] at hl
+    exact (Option.some.inj hl).symm
+
+/-- the driver's predicate holds of the model's aggregation -/
+example : checkAggregate [[([97], [1, 10, 2, 0, 0, 0, 0]), ([98], [1, 5, 1, 0, 0, 0, 0])], [([97], [1, 7, 3, 0, 0, 0, 0])]]
+    (aggregate [[([97], [1, 10, 2, 0, 0, 0, 0]), ([98], [1, 5, 1, 0, 0, 0, 0])], [([97], [1, 7, 3, 0, 0, 0, 0])]]) = true := by
+  decide
+example : aggregate [[([97], [1, 10]), ([98], [1, 5])], [([97], [1, 7])]] = [([97], [2, 17]), ([98], [1, 5])] := by decide
+
+/-! ### the full statement is false on the unchanged tree (`HeadSafe` cannot be dropped): `BranchesRepos[HEAD:{1}]` on a
+    repository whose only branch is `main` — replayed on the real code by corpus/C18/branchesrepos-head.json -/
+
+def exRepo : Repo := ⟨[97], 1, [[109, 97, 105, 110]], 42, [], false⟩
+def exDoc : Doc := ⟨0, [0], [102], [71, 111], [], [], []⟩
+def exShard : RShard := { shard := ⟨[exRepo], [[71, 111]], 12, [exDoc]⟩, failed := false }
+def exQ : Q := .branchesRepos [(HEAD, [1])]
+
+theorem C18_union_full_false :
+    ¬ ∀ (ctx : List Shard) (shards : List RShard) (q : Q), wf true true q = true →
+      ∀ rs ∈ shards, ∀ d, rs.shard.live d = true →
+        ((rs ∈ (selectRepoSet shards q).1 ∧ eval (selectRepoSet shards q).2 ctx rs.shard d = true) ↔
+          eval q ctx rs.shard d = true) := by
+  intro h
+  have h1 := h [] [exShard] exQ (by decide) exShard (by simp) exDoc (by decide)
+  have h2 : eval (selectRepoSet [exShard] exQ).2 [] exShard.shard exDoc = true := by decide
+  have h3 : eval exQ [] exShard.shard exDoc = false := by decide
+  have h4 : exShard ∈ (selectRepoSet [exShard] exQ).1 := by
+    have : (selectRepoSet [exShard] exQ).1 = [exShard] := by rfl
+    rw [this]; simp
+  rw [h3] at h1
+  exact absurd (h1.1 ⟨h4, h2⟩) (by simp)
+
+/-! non-vacuity: a selection that drops a shard and rewrites the filter -/
+def exRepoB : Repo := ⟨[98], 2, [HEAD], 42, [], false⟩
+def exShardB : RShard := { shard := ⟨[exRepoB], [], 12, [⟨0, [0], [103], [], [], [], []⟩]⟩, failed := false, pos := 1 }
+example : ((selectRepoSet [exShard, exShardB] (.and [.repoIDs [2], .substr [102] false false false])).1.map (·.pos),
+    (selectRepoSet [exShard, exShardB] (.and [.repoIDs [2], .substr [102] false false false])).2)
+    = ([1], .substr [102] false false false) := by rfl
+example : HeadSafe [exShardB] (topChildren (.branchesRepos [(HEAD, [2])])) := by
+  intro i l p br _ _ _ rs hrs r hr
+  simp at hrs; subst hrs
+  have : r = exRepoB := by simpa [RShard.listed, exShardB, exRepoB] using hr
+  subst this
+  intro j
+  cases j with
+  | zero => simp [exRepoB]
+  | succ k => simp [exRepoB, HEAD]
+
 end ZoektModel.C18
